@@ -21,7 +21,6 @@ import (
 
 const Bech32Prefix = "goat"
 
-
 // Key is a deterministic secp256k1 identity (validator, relayer member or plain account).
 // Public key, address and uncompressed form are computed once.
 type Key struct {
